@@ -915,6 +915,88 @@ def c_rtree(rng):
     return out
 
 
+@check(('C03', 'C04'), 'rtree.tree-invariant')
+def c_rtree_invariant(rng):
+    """The data-structure invariant TI that the deductive contract of `_maybe_intersects_ranges` *requires*
+    (contracts/c03_query.py), evaluated on trees built by the real `_build_hilbert_rtree`, and the traversal's
+    proved postcondition evaluated on the real traversal (cross-check of the engine's list semantics)."""
+    from spatialpandas.spatialindex import HilbertRtree
+    d = rng.choice([1, 2, 2, 3])
+    n = rng.choice([1, 2, 3, 5, 8, 13, 21, 40])
+    rows = []
+    for _ in range(n):
+        if rng.random() < 0.25:
+            rows.append([float('nan')] * (2 * d))
+        else:
+            lo = [float(rng.randint(-5, 8)) for _ in range(d)]
+            rows.append(lo + [a + float(rng.choice([0, 0, 1, 2, 3])) for a in lo])
+    if rng.random() < 0.2:
+        k = rng.randint(1, n)
+        rows = [[float('nan')] * (2 * d)] * k + rows[k:]
+    boxes = np.array(rows, dtype='float64').reshape(n, 2 * d)
+    page = rng.choice([1, 1, 2, 3, 4, 7, max(n - 1, 1), n, n + 1, 512])
+    p = rng.choice([1, 2, 5, 10, 31])
+    qlo = [float(rng.randint(-6, 8)) for _ in range(d)]
+    q = qlo + [a + float(rng.choice([0, 1, 2, 4, 20])) for a in qlo]
+    if rng.random() < 0.2:
+        q = [float('-inf')] * d + [float('inf')] * d
+    recipe = {'boxes': boxes.tolist(), 'page_size': page, 'p': p, 'query': q}
+    from .registry import note_input
+    note_input(recipe)
+    out = []
+    t = HilbertRtree(boxes, p=p, page_size=page)
+    nt = t.numba_rtree
+    tree, sb, ps = np.asarray(nt._bounds_tree), np.asarray(nt._bounds), int(nt._page_size)
+    tl, N = tree.shape[0], sb.shape[0]
+    L = (tl + 1) // 2
+    if tl < 1 or (L & (L - 1)) != 0 or tl != 2 * L - 1:
+        return [V('rtree.tree-invariant/perfect-tree', f'tree length {tl}', recipe)]
+    if ps < 1 or not (0 <= N <= L * ps):
+        out.append(V('rtree.tree-invariant/rows-fit-the-leaves', f'N={N} L={L} page={ps}', recipe))
+
+    def lm(node):
+        while 2 * node + 1 < tl:
+            node = 2 * node + 1
+        return node
+
+    def rm(node):
+        while 2 * node + 2 < tl:
+            node = 2 * node + 2
+        return node
+    valid = ~np.isnan(sb).any(axis=1)
+    for node in range(tl):
+        a, b = (lm(node) - (L - 1)) * ps, (rm(node) - (L - 1) + 1) * ps
+        if int(nt._start_index(node)) != a or int(nt._stop_index(node)) != b:
+            out.append(V('rtree.tree-invariant/start-stop', f'node {node}', recipe))
+            break
+        for r in range(max(a, 0), min(b, N)):
+            if not valid[r]:
+                continue
+            ok = (not math.isnan(tree[node, 0])) and all(tree[node, k] <= sb[r, k] and sb[r, k + d] <= tree[node, k + d]
+                                                          for k in range(d))
+            if not ok:
+                out.append(V('rtree.tree-invariant/node-boxes-enclose-their-rows', f'node {node} row {r}', recipe))
+                break
+    # the proved postcondition, on the real traversal
+    cov, may = nt._maybe_intersects_ranges(tuple(q))
+    cov, may = [tuple(int(v) for v in x) for x in cov], [tuple(int(v) for v in x) for x in may]
+    allr = sorted(cov + may)
+    if any(a < 0 or a > b or b > L * ps for a, b in allr) or any(x[1] > y[0] for x, y in zip(allr, allr[1:])):
+        out.append(V('rtree.traversal/ranges-disjoint', f'{cov} {may}', recipe))
+    for r in range(N):
+        if not valid[r]:
+            continue
+        meets = all(sb[r, k] <= q[d + k] and sb[r, k + d] >= q[k] for k in range(d))
+        inside = all(sb[r, k] >= q[k] and sb[r, k + d] <= q[d + k] for k in range(d))
+        if meets and not any(a <= r < b for a, b in allr):
+            out.append(V('rtree.traversal/nothing-lost', f'row {r} {cov} {may}', recipe))
+            break
+        if not inside and any(a <= r < b for a, b in cov):
+            out.append(V('rtree.traversal/covered-rows-inside-query', f'row {r} {cov}', recipe))
+            break
+    return out
+
+
 def hilbert_xy2d(p, x, y):
     """classical 2-d Hilbert curve index (independent reference implementation)"""
     n = 1 << p
